@@ -485,6 +485,24 @@ func init() {
 	// big frames through every decoder (C01): the encodings, and the same with the
 	// length field changed to wrap the 16-bit octet count
 	drivers["bigdec"] = func(s *exec.State, g *gen.G, n int) {
+		// TWCC feedback longer than 65,535 octets whose status chunks (not-received runs: no deltas to expand)
+		// reach the octets around 65,534: cursors kept in 16 bits wrap there
+		for _, nch := range []int{32757, 32758, 32760, 32770} {
+			count := 2 * nch
+			if count > 65535 {
+				count = 65535
+			}
+			body := []byte{1, 2, 3, 4, 5, 6, 7, 8, 0, 1, byte(count >> 8), byte(count), 9, 9, 9, 1}
+			body = append(body, rep([]byte{0x00, 0x02}, nch)...)
+			// judged for panic, hang and allocation only (the event carries no decoded value: expanding 32,000
+			// chunks in the specification takes TLC longer than a check may run)
+			s.Reset()
+			s.SetBuf(1, frame(205, 15, body))
+			s.UnmarshalReuse("TWCC", []byte{0x8F, 205, 0, 5, 1, 2, 3, 4, 5, 6, 7, 8, 0, 1, 0, 1, 9, 9, 9, 1, 0x20, 1, 4, 0}, 1)
+		}
+		if n == 2 { // quick tier: the feedback above only
+			return
+		}
 		for _, v := range bigValues(g, n > 0) {
 			b := encodeWith(v)
 			if b == nil {
@@ -712,6 +730,8 @@ func init() {
 // one, and written over every word of a small valid packet of every kind (C04, C07, C09, C17).
 func init() {
 	drivers["dict"] = func(s *exec.State, g *gen.G, n int) {
+		s.Reset()
+		s.Constants()
 		toL := func(b []byte) abs.L {
 			out := make(abs.L, len(b))
 			for i, x := range b {
